@@ -523,9 +523,9 @@ fn br_strategy() -> BoxedStrategy<BrCase> {
 
 pub fn run_all(ctx: &Ctx) {
     let t = ctx.tier;
-    ctx.run_sub("lut_set_rotate", t.pick(3_000, 30_000), 64, || lut_strategy(false), test_lut);
+    ctx.run_sub("lut_set_rotate", t.pick(6_000, 100_000), 64, || lut_strategy(false), test_lut);
     ctx.run_sub("lut_all_rotations", t.pick(200, 3_000), 64, || lut_strategy(true), test_lut);
-    ctx.run_sub("blind_rotation", t.pick(1_500, 30_000), 64, br_strategy, test_br);
+    ctx.run_sub("blind_rotation", t.pick(6_000, 150_000), 64, br_strategy, test_br);
 }
 
 pub fn replay(ctx: &Ctx, sub: &str, case: &serde_json::Value) -> i32 {
